@@ -36,6 +36,23 @@ class Own(Flow):
         return out
 
     # ---- evaluation -----------------------------------------------------------
+    def _class_valued(self, name):
+        """a local variable whose every definition is a class, or a conditional expression
+        between classes (token_class = A if c else B; token_class(...) is a constructor call)"""
+        from . import tok as T
+        vals = T.resolve_local(self.model, name)
+        if not vals or any(v is name for v in vals):
+            return False
+
+        def is_cls(v):
+            if isinstance(v, ast.IfExp):
+                return is_cls(v.body) and is_cls(v.orelse)
+            if isinstance(v, (ast.Name, ast.Attribute)):
+                rs = self.model.resolve_symbol(v._mod, getattr(v, '_fn', None), v)
+                return bool(rs and rs[0] == 'class')
+            return False
+        return all(is_cls(v) for v in vals)
+
     def kind(self, e, st):
         if e is None:
             return None
@@ -44,6 +61,8 @@ class Own(Flow):
         if isinstance(e, ast.Call):
             r = self.model.resolve_call(e)
             if r and r[0] == 'class':
+                return 'own'
+            if not r and isinstance(e.func, ast.Name) and self._class_valued(e.func):
                 return 'own'
             if r and r[0] == 'ext' and r[1] in ('copy.copy', 'copy.deepcopy'):
                 return 'own'
